@@ -71,10 +71,7 @@ func ringDegScenario(rt ring.Type, logN int, ch rk.Chain, bound int) engine.Scen
 			c.Cover("out", "ringdeg-below-input")
 		case outMode == 2 && level < pL.MaxLevel():
 			outLevel = pL.MaxLevel()
-			c.Cover("out", "ringdeg-above-input")
-			if known == "" {
-				known = sigApplyNoResize
-			}
+			c.Cover("out", "ringdeg-above-input") // (the receiver must be brought down: fixed in /repo 2bc2411)
 		}
 		bnd := ksBound(pL, level, kp, beOf(pL), bsOf(pL))
 		if !inScope(bnd, qAt(pL, level)) {
